@@ -28,6 +28,7 @@ type c19params struct {
 	Delay   int  // max write delay in ms (0 = flush every send; 10 = racy flush timer)
 	Faults  bool // carrier failures
 	Closer  bool
+	Redelay bool // the closer first sets the write delay to 0 (configuration changes while packets are buffered)
 	Block   bool // carrier writes block (back-pressure) until the carrier is closed; the receive side fails or times out
 }
 
@@ -231,6 +232,9 @@ func c19(x *explore.X, pr c19params) {
 	}()
 	if pr.Closer {
 		go func() {
+			if pr.Redelay {
+				l.conn.SetMaxWriteDelay(0)
+			}
 			closeCalled = vrt.Tick()
 			l.conn.Close()
 			closeReturned = vrt.Tick()
@@ -261,6 +265,9 @@ func c19(x *explore.X, pr c19params) {
 		if r.err != nil {
 			anySendErr = true
 		}
+	}
+	if anySendErr && !recvDone {
+		x.Failf("no-hang", "receive-blocked-after-send-error:"+ctx, "a Send returned an error but the pending Receive is still blocked (carrier closed=%v): after a send error no call may block", l.carrierClosed())
 	}
 	if (anySendErr || recvDone) && !l.carrierClosed() {
 		x.Failf("error-closes-carrier", "carrier-open-after-error:"+ctx, "a Send or Receive failed (receive error: %v) but the carrier was not closed", recvErr)
@@ -382,6 +389,9 @@ func runC19(r *report.Report) {
 		{"tcp-2senders-closer-delay0", c19params{Carrier: "tcp", Senders: 2, Delay: 0, Closer: true}, b},
 		{"tcp-2senders-faults", c19params{Carrier: "tcp", Senders: 2, Delay: 10, Faults: true, Closer: true}, b - 1},
 		{"tcp-2senders-nocloser", c19params{Carrier: "tcp", Senders: 2, Delay: 10}, b},
+		{"tcp-2senders-faults-nocloser", c19params{Carrier: "tcp", Senders: 2, Delay: 10, Faults: true}, b - 1},
+		{"ws-2senders-faults-nocloser", c19params{Carrier: "ws", Senders: 2, Delay: 10, Faults: true}, b - 1},
+		{"tcp-2senders-closer-redelay", c19params{Carrier: "tcp", Senders: 2, Delay: 10, Closer: true, Redelay: true}, b - 1},
 		{"tcp-backpressure-receive-fails", c19params{Carrier: "tcp", Senders: 2, Delay: 10, Block: true}, b},
 		{"ws-2senders-closer", c19params{Carrier: "ws", Senders: 2, Delay: 10, Closer: true}, b},
 		{"ws-2senders-faults", c19params{Carrier: "ws", Senders: 2, Delay: 10, Faults: true, Closer: true}, b - 1},
@@ -391,7 +401,7 @@ func runC19(r *report.Report) {
 	}
 	for _, cf := range cfgs {
 		st := explore.Explore(explore.Config{Harness: "C19.race", Params: mk(cf.p), Bound: cf.bound, FreeSwitch: true, Workers: report.Workers(), Deadline: r.Deadline()})
-		r.AddExploration(cf.name, "schedule", fmt.Sprintf("%s carrier, %d senders x 2 packets x every async/sync mix, closer=%v, flush delay %d ms, carrier faults=%v, back-pressure=%v; every schedule within preemption bound %d", cf.p.Carrier, cf.p.Senders, cf.p.Closer, cf.p.Delay, cf.p.Faults, cf.p.Block, cf.bound), st,
+		r.AddExploration(cf.name, "schedule", fmt.Sprintf("%s carrier, %d senders x 2 packets x every async/sync mix, closer=%v (resets the write delay first=%v), flush delay %d ms, carrier faults=%v, back-pressure=%v; every schedule within preemption bound %d", cf.p.Carrier, cf.p.Senders, cf.p.Closer, cf.p.Redelay, cf.p.Delay, cf.p.Faults, cf.p.Block, cf.bound), st,
 			"one execution = one interleaving of senders, closer, receiver and flush timer; wire log / return values / carrier state compared at quiescence; non-trivial = executions", "raced")
 	}
 	r.RacePass()
